@@ -36,7 +36,11 @@ RULE = (
     "per vector component), damping None or 10^[-8,2], forces at the data or at a separate set of ceil(n/4)..n points, Poisson ratio in [-1,1], "
     "mindist 0 or small (Spline) / >0 (VectorSpline2D); MAGNITUDE classes: all weights times 1e-15, 1e-12, 1e-9, 1e-6, 1, 1e6, 1e12 (stream wmag: every "
     "estimator configuration x every magnitude, undamped ones also against the fit with the unscaled weights) and all data times 1e-15..1e15; undamped "
-    "fits with fewer forces than data and non-uniform weights are counted as their own class; each fit is followed by predictions at the data and at 20 query points inside the data "
+    "fits with fewer forces than data and non-uniform weights are counted as their own class; HISTORY stream: the same object fitted again (after "
+    "predict / grid / filter / score / jacobian or directly; other locations, smaller / equal / larger size, other layouts; the caller's buffers re-used "
+    "with new contents), re-configured through set_params or attribute assignment after or before first use (Trend degree, Spline / VectorSpline2D "
+    "damping, mindist, poisson, force_coords None <-> explicit; also through instances held in a Chain / Vector), and fitted validly after a fit() "
+    "that raised ValueError on other coordinates - every fit judged against the arguments and the configuration of THAT fit; each fit is followed by predictions at the data and at 20 query points inside the data "
     "region. Relations: undamped fits with weights w and c*w (c in 1e-3..1e3); an outlier with weight 1e-4 / 1e-8 against the fit without the datum "
     "(n >= 5 x parameters). Non-trivial = over-determined or damped, and weights non-constant when given; distinct = hash of kind, configuration, "
     "coordinates, data, weights. Fits are binned by decade of the reference condition number of the augmented scaled design."
@@ -44,7 +48,9 @@ RULE = (
 ASSUMPTIONS = [
     "objective: sum_i w_i r_i^2 + damping * |S p|^2 with S = diag(population std of the columns of the Jacobian over all data rows, unweighted; "
     "exactly constant columns keep scale 1); weights are used as given (not normalised); verified against scikit-learn 1.9.1 Ridge/LinearRegression",
-    "first-order optimality: |A^T (A p - b)| <= 1e-12 * |A| (|A||p| + |b|) with A = [sqrt(w) J S^-1; sqrt(damping) I] built from reference kernels",
+    "first-order optimality: |A^T (A p - b)| <= 1e-12 * |A| (|A||p| + |b|) with A = [sqrt(w) J S^-1; sqrt(damping) I] built from reference kernels; "
+    "for damped fits with fewer data than parameters (they arise when an estimator with fixed forces is refitted to fewer points) the threshold is "
+    "max(1e-12, kappa^2 eps): scikit-learn solves those in the dual, whose backward error maps to a primal gradient of that size",
     "prediction agreement: 100 * kappa_eff * eps * max(|prediction|, |data|), kappa_eff = kappa (undamped, lstsq) or kappa^2 (damped, Cholesky on the "
     "normal equations); judged only when 100*kappa_eff*eps < 1e-3 and, for under-determined undamped fits, only at the data points",
     "columns that are constant only up to round-off (relative spread <= 1e-10) make the scaling ill-defined: the fit is skipped",
@@ -60,8 +66,8 @@ ASSUMPTIONS = [
     "n_1d_arrays document via np.ravel); the reference takes np.asarray(arg).ravel() of every argument",
 ]
 FLOORS = {
-    "quick": {'eval:optimality': 1240, 'eval:prediction_agreement': 1830, 'eval:weight_scale_invariance': 125, 'eval:vanishing_weight': 95, 'fit:trend': 450, 'fit:spline': 480, 'fit:vspline': 300, 'informative_undamped_kappa_ge_1e6': 140, 'distinct_nontrivial': 1200, 'layout:weights:2d_fortran': 50, 'layout:weights:2d_transposed_view': 50, 'layout:weights:2d_strided': 55, 'layout:weights:2d_negative_stride': 55, 'layout:weights:2d_readonly_fortran': 50, 'layout:weights:1d_series': 80, 'layout:data:2d_fortran': 65, 'layout:data:2d_transposed_view': 65, 'layout:data:2d_strided': 75, 'layout:data:1d_series': 95, 'layout:coordinates:2d_fortran': 120, 'layout:coordinates:2d_transposed_view': 110, 'layout:coordinates:1d_series': 160, 'layout:force_coords:2d_fortran': 10, 'layout:weights_laid_out_differently_from_data': 540, 'class:undamped_fewer_forces_than_data_nonuniform_weights:spline': 159, 'class:undamped_fewer_forces_than_data_nonuniform_weights:vspline': 135, 'data_magnitude:1e+00': 497, 'data_magnitude:1e+03': 48, 'data_magnitude:1e+06': 46, 'data_magnitude:1e+09': 40, 'data_magnitude:1e+12': 40, 'data_magnitude:1e+15': 42, 'data_magnitude:1e-03': 36, 'data_magnitude:1e-06': 42, 'data_magnitude:1e-09': 39, 'data_magnitude:1e-12': 35, 'data_magnitude:1e-15': 38, 'weight_magnitude:1e+00': 324, 'weight_magnitude:1e+06': 38, 'weight_magnitude:1e+12': 36, 'weight_magnitude:1e-06': 28, 'weight_magnitude:1e-09': 38, 'weight_magnitude:1e-12': 37, 'weight_magnitude:1e-15': 34, 'weight_magnitude_class:spline_damped:1e+00': 2, 'weight_magnitude_class:spline_damped:1e+06': 2, 'weight_magnitude_class:spline_damped:1e+12': 2, 'weight_magnitude_class:spline_damped:1e-06': 2, 'weight_magnitude_class:spline_damped:1e-09': 2, 'weight_magnitude_class:spline_damped:1e-12': 2, 'weight_magnitude_class:spline_damped:1e-15': 2, 'weight_magnitude_class:spline_damped_fewer_forces:1e+00': 2, 'weight_magnitude_class:spline_damped_fewer_forces:1e+06': 2, 'weight_magnitude_class:spline_damped_fewer_forces:1e+12': 2, 'weight_magnitude_class:spline_damped_fewer_forces:1e-06': 2, 'weight_magnitude_class:spline_damped_fewer_forces:1e-09': 2, 'weight_magnitude_class:spline_damped_fewer_forces:1e-12': 2, 'weight_magnitude_class:spline_damped_fewer_forces:1e-15': 2, 'weight_magnitude_class:spline_undamped_fewer_forces:1e+00': 2, 'weight_magnitude_class:spline_undamped_fewer_forces:1e+06': 2, 'weight_magnitude_class:spline_undamped_fewer_forces:1e+12': 2, 'weight_magnitude_class:spline_undamped_fewer_forces:1e-06': 2, 'weight_magnitude_class:spline_undamped_fewer_forces:1e-09': 2, 'weight_magnitude_class:spline_undamped_fewer_forces:1e-12': 2, 'weight_magnitude_class:spline_undamped_fewer_forces:1e-15': 2, 'weight_magnitude_class:trend:1e+00': 2, 'weight_magnitude_class:trend:1e+06': 2, 'weight_magnitude_class:trend:1e+12': 2, 'weight_magnitude_class:trend:1e-06': 2, 'weight_magnitude_class:trend:1e-09': 2, 'weight_magnitude_class:trend:1e-12': 2, 'weight_magnitude_class:trend:1e-15': 2, 'weight_magnitude_class:vspline_damped:1e+00': 2, 'weight_magnitude_class:vspline_damped:1e+06': 2, 'weight_magnitude_class:vspline_damped:1e+12': 2, 'weight_magnitude_class:vspline_damped:1e-06': 2, 'weight_magnitude_class:vspline_damped:1e-09': 2, 'weight_magnitude_class:vspline_damped:1e-12': 2, 'weight_magnitude_class:vspline_damped:1e-15': 2, 'weight_magnitude_class:vspline_undamped_fewer_forces:1e+00': 2, 'weight_magnitude_class:vspline_undamped_fewer_forces:1e+06': 2, 'weight_magnitude_class:vspline_undamped_fewer_forces:1e+12': 2, 'weight_magnitude_class:vspline_undamped_fewer_forces:1e-06': 2, 'weight_magnitude_class:vspline_undamped_fewer_forces:1e-09': 2, 'weight_magnitude_class:vspline_undamped_fewer_forces:1e-12': 2, 'weight_magnitude_class:vspline_undamped_fewer_forces:1e-15': 2, 'weight_scale_invariance:magnitude:1e+06': 5, 'weight_scale_invariance:magnitude:1e+12': 5, 'weight_scale_invariance:magnitude:1e-06': 6, 'weight_scale_invariance:magnitude:1e-09': 5, 'weight_scale_invariance:magnitude:1e-12': 5, 'weight_scale_invariance:magnitude:1e-15': 5},
-    "thorough": {'eval:optimality': 31000, 'eval:prediction_agreement': 45750, 'eval:weight_scale_invariance': 3125, 'eval:vanishing_weight': 2375, 'fit:trend': 11250, 'fit:spline': 12000, 'fit:vspline': 7500, 'informative_undamped_kappa_ge_1e6': 3500, 'distinct_nontrivial': 30000, 'layout:weights:2d_fortran': 1250, 'layout:weights:2d_transposed_view': 1250, 'layout:weights:2d_strided': 1375, 'layout:weights:2d_negative_stride': 1375, 'layout:weights:2d_readonly_fortran': 1250, 'layout:weights:1d_series': 2000, 'layout:data:2d_fortran': 1625, 'layout:data:2d_transposed_view': 1625, 'layout:data:2d_strided': 1875, 'layout:data:1d_series': 2375, 'layout:coordinates:2d_fortran': 3000, 'layout:coordinates:2d_transposed_view': 2750, 'layout:coordinates:1d_series': 4000, 'layout:force_coords:2d_fortran': 250, 'layout:weights_laid_out_differently_from_data': 13500, 'class:undamped_fewer_forces_than_data_nonuniform_weights:spline': 3577, 'class:undamped_fewer_forces_than_data_nonuniform_weights:vspline': 3037, 'data_magnitude:1e+00': 11182, 'data_magnitude:1e+03': 1080, 'data_magnitude:1e+06': 1035, 'data_magnitude:1e+09': 900, 'data_magnitude:1e+12': 900, 'data_magnitude:1e+15': 945, 'data_magnitude:1e-03': 810, 'data_magnitude:1e-06': 945, 'data_magnitude:1e-09': 877, 'data_magnitude:1e-12': 787, 'data_magnitude:1e-15': 855, 'weight_magnitude:1e+00': 7290, 'weight_magnitude:1e+06': 855, 'weight_magnitude:1e+12': 810, 'weight_magnitude:1e-06': 630, 'weight_magnitude:1e-09': 855, 'weight_magnitude:1e-12': 832, 'weight_magnitude:1e-15': 765, 'weight_magnitude_class:spline_damped:1e+00': 45, 'weight_magnitude_class:spline_damped:1e+06': 45, 'weight_magnitude_class:spline_damped:1e+12': 45, 'weight_magnitude_class:spline_damped:1e-06': 45, 'weight_magnitude_class:spline_damped:1e-09': 45, 'weight_magnitude_class:spline_damped:1e-12': 45, 'weight_magnitude_class:spline_damped:1e-15': 45, 'weight_magnitude_class:spline_damped_fewer_forces:1e+00': 45, 'weight_magnitude_class:spline_damped_fewer_forces:1e+06': 45, 'weight_magnitude_class:spline_damped_fewer_forces:1e+12': 45, 'weight_magnitude_class:spline_damped_fewer_forces:1e-06': 45, 'weight_magnitude_class:spline_damped_fewer_forces:1e-09': 45, 'weight_magnitude_class:spline_damped_fewer_forces:1e-12': 45, 'weight_magnitude_class:spline_damped_fewer_forces:1e-15': 45, 'weight_magnitude_class:spline_undamped_fewer_forces:1e+00': 45, 'weight_magnitude_class:spline_undamped_fewer_forces:1e+06': 45, 'weight_magnitude_class:spline_undamped_fewer_forces:1e+12': 45, 'weight_magnitude_class:spline_undamped_fewer_forces:1e-06': 45, 'weight_magnitude_class:spline_undamped_fewer_forces:1e-09': 45, 'weight_magnitude_class:spline_undamped_fewer_forces:1e-12': 45, 'weight_magnitude_class:spline_undamped_fewer_forces:1e-15': 45, 'weight_magnitude_class:trend:1e+00': 45, 'weight_magnitude_class:trend:1e+06': 45, 'weight_magnitude_class:trend:1e+12': 45, 'weight_magnitude_class:trend:1e-06': 45, 'weight_magnitude_class:trend:1e-09': 45, 'weight_magnitude_class:trend:1e-12': 45, 'weight_magnitude_class:trend:1e-15': 45, 'weight_magnitude_class:vspline_damped:1e+00': 45, 'weight_magnitude_class:vspline_damped:1e+06': 45, 'weight_magnitude_class:vspline_damped:1e+12': 45, 'weight_magnitude_class:vspline_damped:1e-06': 45, 'weight_magnitude_class:vspline_damped:1e-09': 45, 'weight_magnitude_class:vspline_damped:1e-12': 45, 'weight_magnitude_class:vspline_damped:1e-15': 45, 'weight_magnitude_class:vspline_undamped_fewer_forces:1e+00': 45, 'weight_magnitude_class:vspline_undamped_fewer_forces:1e+06': 45, 'weight_magnitude_class:vspline_undamped_fewer_forces:1e+12': 45, 'weight_magnitude_class:vspline_undamped_fewer_forces:1e-06': 45, 'weight_magnitude_class:vspline_undamped_fewer_forces:1e-09': 45, 'weight_magnitude_class:vspline_undamped_fewer_forces:1e-12': 45, 'weight_magnitude_class:vspline_undamped_fewer_forces:1e-15': 45, 'weight_scale_invariance:magnitude:1e+06': 112, 'weight_scale_invariance:magnitude:1e+12': 112, 'weight_scale_invariance:magnitude:1e-06': 135, 'weight_scale_invariance:magnitude:1e-09': 112, 'weight_scale_invariance:magnitude:1e-12': 112, 'weight_scale_invariance:magnitude:1e-15': 112},
+    "quick": {'eval:optimality': 1610, 'eval:prediction_agreement': 2259, 'eval:weight_scale_invariance': 126, 'eval:vanishing_weight': 96, 'fit:trend': 450, 'fit:spline': 480, 'fit:vspline': 300, 'informative_undamped_kappa_ge_1e6': 140, 'distinct_nontrivial': 1200, 'layout:weights:2d_fortran': 50, 'layout:weights:2d_transposed_view': 50, 'layout:weights:2d_strided': 55, 'layout:weights:2d_negative_stride': 55, 'layout:weights:2d_readonly_fortran': 50, 'layout:weights:1d_series': 80, 'layout:data:2d_fortran': 65, 'layout:data:2d_transposed_view': 65, 'layout:data:2d_strided': 75, 'layout:data:1d_series': 95, 'layout:coordinates:2d_fortran': 120, 'layout:coordinates:2d_transposed_view': 110, 'layout:coordinates:1d_series': 160, 'layout:force_coords:2d_fortran': 10, 'layout:weights_laid_out_differently_from_data': 540, 'class:undamped_fewer_forces_than_data_nonuniform_weights:spline': 159, 'class:undamped_fewer_forces_than_data_nonuniform_weights:vspline': 135, 'data_magnitude:1e+00': 497, 'data_magnitude:1e+03': 48, 'data_magnitude:1e+06': 46, 'data_magnitude:1e+09': 40, 'data_magnitude:1e+12': 40, 'data_magnitude:1e+15': 42, 'data_magnitude:1e-03': 36, 'data_magnitude:1e-06': 42, 'data_magnitude:1e-09': 39, 'data_magnitude:1e-12': 35, 'data_magnitude:1e-15': 38, 'weight_magnitude:1e+00': 324, 'weight_magnitude:1e+06': 38, 'weight_magnitude:1e+12': 36, 'weight_magnitude:1e-06': 28, 'weight_magnitude:1e-09': 38, 'weight_magnitude:1e-12': 37, 'weight_magnitude:1e-15': 34, 'weight_magnitude_class:spline_damped:1e+00': 2, 'weight_magnitude_class:spline_damped:1e+06': 2, 'weight_magnitude_class:spline_damped:1e+12': 2, 'weight_magnitude_class:spline_damped:1e-06': 2, 'weight_magnitude_class:spline_damped:1e-09': 2, 'weight_magnitude_class:spline_damped:1e-12': 2, 'weight_magnitude_class:spline_damped:1e-15': 2, 'weight_magnitude_class:spline_damped_fewer_forces:1e+00': 2, 'weight_magnitude_class:spline_damped_fewer_forces:1e+06': 2, 'weight_magnitude_class:spline_damped_fewer_forces:1e+12': 2, 'weight_magnitude_class:spline_damped_fewer_forces:1e-06': 2, 'weight_magnitude_class:spline_damped_fewer_forces:1e-09': 2, 'weight_magnitude_class:spline_damped_fewer_forces:1e-12': 2, 'weight_magnitude_class:spline_damped_fewer_forces:1e-15': 2, 'weight_magnitude_class:spline_undamped_fewer_forces:1e+00': 2, 'weight_magnitude_class:spline_undamped_fewer_forces:1e+06': 2, 'weight_magnitude_class:spline_undamped_fewer_forces:1e+12': 2, 'weight_magnitude_class:spline_undamped_fewer_forces:1e-06': 2, 'weight_magnitude_class:spline_undamped_fewer_forces:1e-09': 2, 'weight_magnitude_class:spline_undamped_fewer_forces:1e-12': 2, 'weight_magnitude_class:spline_undamped_fewer_forces:1e-15': 2, 'weight_magnitude_class:trend:1e+00': 2, 'weight_magnitude_class:trend:1e+06': 2, 'weight_magnitude_class:trend:1e+12': 2, 'weight_magnitude_class:trend:1e-06': 2, 'weight_magnitude_class:trend:1e-09': 2, 'weight_magnitude_class:trend:1e-12': 2, 'weight_magnitude_class:trend:1e-15': 2, 'weight_magnitude_class:vspline_damped:1e+00': 2, 'weight_magnitude_class:vspline_damped:1e+06': 2, 'weight_magnitude_class:vspline_damped:1e+12': 2, 'weight_magnitude_class:vspline_damped:1e-06': 2, 'weight_magnitude_class:vspline_damped:1e-09': 2, 'weight_magnitude_class:vspline_damped:1e-12': 2, 'weight_magnitude_class:vspline_damped:1e-15': 2, 'weight_magnitude_class:vspline_undamped_fewer_forces:1e+00': 2, 'weight_magnitude_class:vspline_undamped_fewer_forces:1e+06': 2, 'weight_magnitude_class:vspline_undamped_fewer_forces:1e+12': 2, 'weight_magnitude_class:vspline_undamped_fewer_forces:1e-06': 2, 'weight_magnitude_class:vspline_undamped_fewer_forces:1e-09': 2, 'weight_magnitude_class:vspline_undamped_fewer_forces:1e-12': 2, 'weight_magnitude_class:vspline_undamped_fewer_forces:1e-15': 2, 'weight_scale_invariance:magnitude:1e+06': 5, 'weight_scale_invariance:magnitude:1e+12': 5, 'weight_scale_invariance:magnitude:1e-06': 6, 'weight_scale_invariance:magnitude:1e-09': 5, 'weight_scale_invariance:magnitude:1e-12': 5, 'weight_scale_invariance:magnitude:1e-15': 5, 'history:error_then_fit:spline': 4, 'history:error_then_fit:trend': 4, 'history:error_then_fit:vspline': 4, 'history:reconfigure_after_use:spline': 4, 'history:reconfigure_after_use:trend': 4, 'history:reconfigure_after_use:vspline': 4, 'history:reconfigure_before_use:spline': 4, 'history:reconfigure_before_use:trend': 4, 'history:reconfigure_before_use:vspline': 4, 'history:reconfigure_held_in_chain:spline': 4, 'history:reconfigure_held_in_chain:trend': 4, 'history:reconfigure_held_in_chain:vspline': 4, 'history:refit_after_resetting_forces:spline': 4, 'history:refit_after_resetting_forces:vspline': 4, 'history:refit_after_use:spline': 4, 'history:refit_after_use:trend': 9, 'history:refit_after_use:vspline': 4, 'history:refit_directly:spline': 4, 'history:refit_directly:trend': 4, 'history:refit_directly:vspline': 4, 'history:refit_same_arrays_new_contents:spline': 4, 'history:refit_same_arrays_new_contents:trend': 4, 'history:refit_same_arrays_new_contents:vspline': 4, 'history:size_change:equal': 15, 'history:size_change:larger': 13, 'history:size_change:smaller': 14, 'history:trend_degree_down': 5, 'history:trend_degree_up': 5, 'history:use:filter': 5, 'history:use:grid': 6, 'history:use:jacobian': 5, 'history:use:nothing': 4, 'history:use:predict_data': 8, 'history:use:predict_elsewhere': 7, 'history:use:score': 6, 'history:via_attribute_assignment': 16, 'history:via_set_params': 15, 'fit_raised:vspline:ValueError': 4},
+    "thorough": {'eval:optimality': 36234, 'eval:prediction_agreement': 50832, 'eval:weight_scale_invariance': 2844, 'eval:vanishing_weight': 2160, 'fit:trend': 11250, 'fit:spline': 12000, 'fit:vspline': 7500, 'informative_undamped_kappa_ge_1e6': 3500, 'distinct_nontrivial': 30000, 'layout:weights:2d_fortran': 1250, 'layout:weights:2d_transposed_view': 1250, 'layout:weights:2d_strided': 1375, 'layout:weights:2d_negative_stride': 1375, 'layout:weights:2d_readonly_fortran': 1250, 'layout:weights:1d_series': 2000, 'layout:data:2d_fortran': 1625, 'layout:data:2d_transposed_view': 1625, 'layout:data:2d_strided': 1875, 'layout:data:1d_series': 2375, 'layout:coordinates:2d_fortran': 3000, 'layout:coordinates:2d_transposed_view': 2750, 'layout:coordinates:1d_series': 4000, 'layout:force_coords:2d_fortran': 250, 'layout:weights_laid_out_differently_from_data': 13500, 'class:undamped_fewer_forces_than_data_nonuniform_weights:spline': 3577, 'class:undamped_fewer_forces_than_data_nonuniform_weights:vspline': 3037, 'data_magnitude:1e+00': 11182, 'data_magnitude:1e+03': 1080, 'data_magnitude:1e+06': 1035, 'data_magnitude:1e+09': 900, 'data_magnitude:1e+12': 900, 'data_magnitude:1e+15': 945, 'data_magnitude:1e-03': 810, 'data_magnitude:1e-06': 945, 'data_magnitude:1e-09': 877, 'data_magnitude:1e-12': 787, 'data_magnitude:1e-15': 855, 'weight_magnitude:1e+00': 7290, 'weight_magnitude:1e+06': 855, 'weight_magnitude:1e+12': 810, 'weight_magnitude:1e-06': 630, 'weight_magnitude:1e-09': 855, 'weight_magnitude:1e-12': 832, 'weight_magnitude:1e-15': 765, 'weight_magnitude_class:spline_damped:1e+00': 45, 'weight_magnitude_class:spline_damped:1e+06': 45, 'weight_magnitude_class:spline_damped:1e+12': 45, 'weight_magnitude_class:spline_damped:1e-06': 45, 'weight_magnitude_class:spline_damped:1e-09': 45, 'weight_magnitude_class:spline_damped:1e-12': 45, 'weight_magnitude_class:spline_damped:1e-15': 45, 'weight_magnitude_class:spline_damped_fewer_forces:1e+00': 45, 'weight_magnitude_class:spline_damped_fewer_forces:1e+06': 45, 'weight_magnitude_class:spline_damped_fewer_forces:1e+12': 45, 'weight_magnitude_class:spline_damped_fewer_forces:1e-06': 45, 'weight_magnitude_class:spline_damped_fewer_forces:1e-09': 45, 'weight_magnitude_class:spline_damped_fewer_forces:1e-12': 45, 'weight_magnitude_class:spline_damped_fewer_forces:1e-15': 45, 'weight_magnitude_class:spline_undamped_fewer_forces:1e+00': 45, 'weight_magnitude_class:spline_undamped_fewer_forces:1e+06': 45, 'weight_magnitude_class:spline_undamped_fewer_forces:1e+12': 45, 'weight_magnitude_class:spline_undamped_fewer_forces:1e-06': 45, 'weight_magnitude_class:spline_undamped_fewer_forces:1e-09': 45, 'weight_magnitude_class:spline_undamped_fewer_forces:1e-12': 45, 'weight_magnitude_class:spline_undamped_fewer_forces:1e-15': 45, 'weight_magnitude_class:trend:1e+00': 45, 'weight_magnitude_class:trend:1e+06': 45, 'weight_magnitude_class:trend:1e+12': 45, 'weight_magnitude_class:trend:1e-06': 45, 'weight_magnitude_class:trend:1e-09': 45, 'weight_magnitude_class:trend:1e-12': 45, 'weight_magnitude_class:trend:1e-15': 45, 'weight_magnitude_class:vspline_damped:1e+00': 45, 'weight_magnitude_class:vspline_damped:1e+06': 45, 'weight_magnitude_class:vspline_damped:1e+12': 45, 'weight_magnitude_class:vspline_damped:1e-06': 45, 'weight_magnitude_class:vspline_damped:1e-09': 45, 'weight_magnitude_class:vspline_damped:1e-12': 45, 'weight_magnitude_class:vspline_damped:1e-15': 45, 'weight_magnitude_class:vspline_undamped_fewer_forces:1e+00': 45, 'weight_magnitude_class:vspline_undamped_fewer_forces:1e+06': 45, 'weight_magnitude_class:vspline_undamped_fewer_forces:1e+12': 45, 'weight_magnitude_class:vspline_undamped_fewer_forces:1e-06': 45, 'weight_magnitude_class:vspline_undamped_fewer_forces:1e-09': 45, 'weight_magnitude_class:vspline_undamped_fewer_forces:1e-12': 45, 'weight_magnitude_class:vspline_undamped_fewer_forces:1e-15': 45, 'weight_scale_invariance:magnitude:1e+06': 112, 'weight_scale_invariance:magnitude:1e+12': 112, 'weight_scale_invariance:magnitude:1e-06': 135, 'weight_scale_invariance:magnitude:1e-09': 112, 'weight_scale_invariance:magnitude:1e-12': 112, 'weight_scale_invariance:magnitude:1e-15': 112, 'history:error_then_fit:spline': 80, 'history:error_then_fit:trend': 80, 'history:error_then_fit:vspline': 80, 'history:reconfigure_after_use:spline': 80, 'history:reconfigure_after_use:trend': 80, 'history:reconfigure_after_use:vspline': 80, 'history:reconfigure_before_use:spline': 80, 'history:reconfigure_before_use:trend': 80, 'history:reconfigure_before_use:vspline': 80, 'history:reconfigure_held_in_chain:spline': 80, 'history:reconfigure_held_in_chain:trend': 80, 'history:reconfigure_held_in_chain:vspline': 80, 'history:refit_after_resetting_forces:spline': 80, 'history:refit_after_resetting_forces:vspline': 80, 'history:refit_after_use:spline': 80, 'history:refit_after_use:trend': 180, 'history:refit_after_use:vspline': 80, 'history:refit_directly:spline': 80, 'history:refit_directly:trend': 80, 'history:refit_directly:vspline': 80, 'history:refit_same_arrays_new_contents:spline': 80, 'history:refit_same_arrays_new_contents:trend': 80, 'history:refit_same_arrays_new_contents:vspline': 80, 'history:size_change:equal': 337, 'history:size_change:larger': 303, 'history:size_change:smaller': 330, 'history:trend_degree_down': 128, 'history:trend_degree_up': 114, 'history:use:filter': 114, 'history:use:grid': 135, 'history:use:jacobian': 114, 'history:use:nothing': 108, 'history:use:predict_data': 189, 'history:use:predict_elsewhere': 168, 'history:use:score': 141, 'history:via_attribute_assignment': 378, 'history:via_set_params': 351, 'fit_raised:vspline:ValueError': 80},
 }
 JOBS = {"quick": 1, "thorough": 16}
 CASE_TIMEOUT_S = 300
@@ -69,8 +75,8 @@ CASE_TIMEOUT_S = 300
 
 def plan(tier):
     if tier == "quick":
-        return collections.OrderedDict(trend=600, spline=700, vspline=280, wscale=240, vanish=240, wmag=210)
-    return collections.OrderedDict(trend=15000, spline=17500, vspline=7000, wscale=6000, vanish=6000, wmag=5250)
+        return collections.OrderedDict(trend=600, spline=700, vspline=280, wscale=240, vanish=240, wmag=210, history=288)
+    return collections.OrderedDict(trend=15000, spline=17500, vspline=7000, wscale=6000, vanish=6000, wmag=5250, history=7200)
 
 
 # ----------------------------------------------------------------------
@@ -79,6 +85,7 @@ def plan(tier):
 class _State:
     def __init__(self):
         self.records = {}
+        self.vforce = {}  # VectorSpline2D: where the forces are documented to be (tracked over the object's history, incl. failed fits)
 
 
 _S = _State()
@@ -218,11 +225,19 @@ def install(tap, run):
         grad = lsq.gradient_norm(params)
         rec.gradient = grad
         witness.update(parameters=params, normalised_gradient=grad)
-        if not grad <= GRADIENT_TOL:
+        grad_tol = GRADIENT_TOL
+        if damped and rows < cols:
+            # scikit-learn solves damped problems with fewer data than parameters in the dual (K + damping I) c = d, p = A^T c: a backward-stable
+            # dual solve leaves a primal gradient A^T r with |r| <= eps |K + damping I| |c|, i.e. up to kappa^2 eps in the normalised measure
+            grad_tol = max(GRADIENT_TOL, lsq.cond ** 2 * EPS)
+            run.count("class:damped_fewer_data_than_parameters:" + kind)
+            if lsq.cond ** 2 * EPS > 0:
+                run.observe_max("gradient_over_kappa2_eps:damped_fewer_data_than_parameters", grad / (lsq.cond ** 2 * EPS))
+        if not grad <= grad_tol:
             run.violation(
                 "optimality",
                 "%s fit (%s, %s, %d x %d, kappa %.3g) is not a stationary point of sum w r^2 + damping |S p|^2: normalised gradient %.3g > %.1g"
-                % (kind, tag, "weights" if rec.weights is not None else "no weights", rows, cols, lsq.cond, grad, GRADIENT_TOL),
+                % (kind, tag, "weights" if rec.weights is not None else "no weights", rows, cols, lsq.cond, grad, grad_tol),
                 witness, key="%s:%s:%s" % (kind, tag, "w" if rec.weights is not None else "nw"))
             return
         run.observe_max("gradient_norm:%s:%s" % (kind, tag), grad)
@@ -251,15 +266,36 @@ def install(tap, run):
         judge_fit(ev, rec, obj.force_)
 
     def pre_vspline_fit(ev):
-        given = ev.args["self"].force_coords
-        return None if given is None else (_seq(given[0]), _seq(given[1]))
+        """
+        Where the documentation puts the forces of this fit: the configured force_coords, or - when None - the data of the first
+        *successful* fit (they then stay there until the parameter is set again). Tracked by the monitor over the object's history so that
+        a call that raised, or anything cached at first use, cannot redefine the expectation: the parameter is taken from the object only when
+        the object shows a value the monitor has not seen at the end of the previous fit call (the user re-configured it).
+        """
+        obj = ev.args["self"]
+        track = _S.vforce.get(id(obj))
+        current = obj.force_coords
+        if track is None or track["ref"]() is not obj or current is not track["last_seen"]:
+            return None if current is None else (_seq(current[0]), _seq(current[1]))
+        return track["expected"]
 
     def post_vspline_fit(ev):
-        if ev.exc is not None:
-            return
         obj = ev.obj
+        expected = ev.pre
+        if ev.exc is None and expected is None:
+            try:
+                coordinates = ev.args["coordinates"]
+                expected_after = (_seq(coordinates[0]), _seq(coordinates[1]))
+            except Exception:  # noqa: BLE001
+                expected_after = None
+        else:
+            expected_after = expected
+        _S.vforce[id(obj)] = {"ref": weakref.ref(obj), "expected": expected_after, "last_seen": obj.force_coords}
+        if ev.exc is not None:
+            run.count("fit_raised:vspline:" + type(ev.exc).__name__)
+            return
         rec = build(ev, "vspline", {"mindist": float(obj.mindist), "poisson": float(obj.poisson),
-                                    "damping": None if obj.damping is None else float(obj.damping)}, ev.pre)
+                                    "damping": None if obj.damping is None else float(obj.damping)}, expected)
         judge_fit(ev, rec, obj.force_)
 
     def post_predict(ev):
@@ -490,10 +526,189 @@ def _predict(est, coords):
     return np.concatenate([np.asarray(o, dtype="float64").ravel() for o in out]) if isinstance(out, tuple) else np.asarray(out, dtype="float64").ravel()
 
 
+def _problem(run, rng, kind, n):
+    east, north = gen.cloud(rng, n)
+    data = _data(rng, kind, east, north, run)
+    weights = None
+    if rng.random() < 0.7:
+        mag = _weight_magnitude(rng, run, p=0.2)
+        weights = (mag * _weights(rng, n), mag * _weights(rng, n) * gen.log_uniform(rng, 1e-1, 1e1)) if kind == "vspline" else mag * _weights(rng, n)
+    return east, north, data, weights
+
+
+def _fit_problem(run, rng, kind, est, problem):
+    coords, data, weights, _ = _present_fit(run, rng, kind, *problem)
+    _fit(est, coords, data, weights)
+    return coords, data, weights
+
+
+def _use(run, rng, verde, est, kind, problem, args):
+    """Something a user does with a fitted estimator between two fits (every nested fit / predict is judged by the monitors)."""
+    east, north = problem[0], problem[1]
+    coords, data, weights = args
+    choice = str(rng.choice(["predict_data", "predict_elsewhere", "grid", "filter", "score", "jacobian", "nothing"]))
+    run.count("history:use:" + choice)
+    with warnings.catch_warnings():
+        warnings.simplefilter("ignore")
+        if choice == "predict_data":
+            est.predict(coords)
+        elif choice == "predict_elsewhere":
+            est.predict(_queries(rng, east, north))
+        elif choice == "grid":
+            est.grid(shape=(int(rng.integers(3, 7)), int(rng.integers(3, 7))))
+        elif choice == "filter":
+            est.filter(coords, data, weights)
+        elif choice == "score":
+            est.score(coords, data, weights)
+        elif choice == "jacobian":
+            if kind == "trend":
+                est.jacobian(coords)
+            else:
+                est.jacobian(coords, est.force_coords_ if kind == "spline" else est.force_coords)
+
+
+def _other_size(rng, n, lo=6):
+    how = str(rng.choice(["smaller", "equal", "larger"]))
+    if how == "smaller":
+        return max(lo, int(n * rng.uniform(0.3, 0.8))), how
+    if how == "larger":
+        return int(n * rng.uniform(1.3, 2.2)) + 1, how
+    return n, how
+
+
+def _reconfigure(run, rng, verde, est, kind, east, north):
+    """Give *est* the parameters of a freshly drawn configuration, through set_params or plain attribute assignment."""
+    if kind == "trend":
+        degree = int(rng.choice([d for d in range(5) if d != est.degree]))
+        run.count("history:trend_degree_" + ("up" if degree > est.degree else "down"))
+        params = {"degree": degree}
+    else:
+        donor, _ = _make(rng, verde, kind, east, north, run=run)
+        params = {k: v for k, v in donor.get_params().items() if k != "engine"}
+        run.count("history:force_coords:%s_to_%s" % ("none" if est.force_coords is None else "explicit", "none" if params["force_coords"] is None else "explicit"))
+        run.count("history:damping:%s_to_%s" % ("none" if est.damping is None else "set", "none" if params["damping"] is None else "set"))
+    if rng.random() < 0.5:
+        est.set_params(**params)
+        run.count("history:via_set_params")
+    else:
+        for name, value in params.items():
+            setattr(est, name, value)
+        run.count("history:via_attribute_assignment")
+    return params
+
+
+HISTORY_MODES = ("refit_after_use", "refit_directly", "refit_same_arrays_new_contents", "reconfigure_after_use", "reconfigure_before_use",
+                 "reconfigure_held_in_chain", "error_then_fit", "refit_after_resetting_forces")
+
+
+def _history(run, rng, verde, index):
+    kind = ["trend", "spline", "vspline"][index % 3]
+    mode = HISTORY_MODES[(index // 3) % len(HISTORY_MODES)]
+    if mode == "refit_after_resetting_forces" and kind == "trend":
+        mode = "refit_after_use"
+    run.count("history:%s:%s" % (mode, kind))
+    n = _size(rng, 8, 120 if kind != "vspline" else 60, big_share=0.15, big_lo=60 if kind != "vspline" else 30)
+    first = _problem(run, rng, kind, n)
+    est, cfg = _make(rng, verde, kind, first[0], first[1], run=run)
+    n2, how = _other_size(rng, n)
+    second = _problem(run, rng, kind, n2)
+
+    def finish(obj, problem, args):
+        _predict(obj, args[0])
+        _predict(obj, _queries(rng, problem[0], problem[1]))
+
+    if mode in ("refit_after_use", "refit_directly", "refit_after_resetting_forces"):
+        args = _fit_problem(run, rng, kind, est, first)
+        if mode != "refit_directly":
+            _use(run, rng, verde, est, kind, first, args)
+        if mode == "refit_after_resetting_forces":
+            est.set_params(force_coords=None)
+        run.count("history:size_change:" + how)
+        args = _fit_problem(run, rng, kind, est, second)
+        finish(est, second, args)
+    elif mode == "refit_same_arrays_new_contents":
+        shape = lay.logical_shape(rng, n)
+        east, north, data, weights = first
+        east2, north2, data2, weights2 = _problem(run, rng, kind, n)
+        own = lambda a: np.array(a.reshape(shape), order="C", copy=True)  # noqa: E731
+        e, nn = own(east), own(north)
+        d = tuple(own(c) for c in data) if isinstance(data, tuple) else own(data)
+        w = None if weights is None else (tuple(own(c) for c in weights) if isinstance(weights, tuple) else own(weights))
+        _fit(est, (e, nn), d, w)
+        _use(run, rng, verde, est, kind, first, ((e, nn), d, w))
+        e[...] = east2.reshape(shape)  # the caller re-uses its buffers: same objects (same id), new contents
+        nn[...] = north2.reshape(shape)
+        for target, source in zip(d if isinstance(d, tuple) else (d,), data2 if isinstance(data2, tuple) else (data2,)):
+            target[...] = source.reshape(shape)
+        if w is not None:
+            new_w = weights2 if weights2 is not None else (tuple(np.ones(n) for _ in w) if isinstance(w, tuple) else np.ones(n))
+            for target, source in zip(w if isinstance(w, tuple) else (w,), new_w if isinstance(new_w, tuple) else (new_w,)):
+                target[...] = np.asarray(source).reshape(shape)
+        _fit(est, (e, nn), d, w)
+        finish(est, (east2, north2), ((e, nn), d, w))
+    elif mode in ("reconfigure_after_use", "reconfigure_before_use"):
+        if mode == "reconfigure_after_use":
+            args = _fit_problem(run, rng, kind, est, first)
+            _use(run, rng, verde, est, kind, first, args)
+        elif rng.random() < 0.5:  # the only use before the change: building a design matrix with the first configuration
+            with warnings.catch_warnings():
+                warnings.simplefilter("ignore")
+                if kind == "trend":
+                    est.jacobian((first[0], first[1]))
+                else:
+                    est.jacobian((first[0], first[1]), (first[0], first[1]) if est.force_coords is None else est.force_coords)
+        target = second if rng.random() < 0.6 else first
+        _reconfigure(run, rng, verde, est, kind, target[0], target[1])
+        args = _fit_problem(run, rng, kind, est, target)
+        finish(est, target, args)
+    elif mode == "reconfigure_held_in_chain":
+        trends = verde.Trend(int(rng.integers(0, 3))) if kind != "vspline" else verde.Vector([verde.Trend(int(rng.integers(0, 3))) for _ in range(2)])
+        held = est if kind != "trend" else verde.Trend(int(rng.integers(0, 5)))
+        chain = verde.Chain([("first", trends), ("held", held)])
+        args = _fit_problem(run, rng, kind, chain, first)
+        if rng.random() < 0.6:
+            _predict(chain, args[0])
+        for trend in (trends.components if kind == "vspline" else [trends]):
+            trend.set_params(degree=int(rng.choice([d for d in range(4) if d != trend.degree])))
+        _reconfigure(run, rng, verde, held, kind, second[0], second[1])
+        args = _fit_problem(run, rng, kind, chain, second)
+        _predict(chain, args[0])
+        _predict(chain, _queries(rng, second[0], second[1]))
+    elif mode == "error_then_fit":
+        east, north, data, weights = first
+        which = str(rng.choice(["data_shape", "coordinate_shape", "components", "weights_count"]))
+        if kind == "vspline" and (index // (3 * len(HISTORY_MODES))) % 2 == 0:
+            which = "components"
+        bad_coords, bad_data, bad_weights = (east, north), data, weights
+        if which == "data_shape":
+            bad_data = tuple(c[:-1] for c in data) if isinstance(data, tuple) else data[:-1]
+            bad_weights = None
+        elif which == "coordinate_shape":
+            bad_coords = (east, north[:-1])
+        elif which == "components":
+            bad_data = (data[0], data[1], data[0]) if kind == "vspline" else data
+            bad_weights = None
+            if kind != "vspline":
+                bad_weights = (np.ones(n), np.ones(n))
+                which = "weights_count"
+        else:
+            bad_weights = (np.ones(n),) * 3 if kind == "vspline" else (np.ones(n), np.ones(n))
+        try:
+            _fit(est, bad_coords, bad_data, bad_weights)
+            run.count("history:error_path:%s:accepted" % which)
+        except ValueError:
+            run.count("history:error_path:%s:ValueError" % which)
+        run.count("history:size_change:" + how)
+        args = _fit_problem(run, rng, kind, est, second)
+        finish(est, second, args)
+    run.sample("history", {"mode": mode, "kind": kind, "first_config": {k: v for k, v in cfg.items()}, "n_first": n, "n_second": n2})
+
+
 def run_case(run, tap, stream, index, rng):
     import verde
 
     _S.records.clear()
+    _S.vforce.clear()
     if stream in ("trend", "spline", "vspline"):
         kind = stream
         hi = {"trend": 300, "spline": 300, "vspline": 150}[kind]
@@ -680,6 +895,8 @@ def run_case(run, tap, stream, index, rng):
         run.mark_nontrivial("vanish", kind, repr(sorted(cfg.items(), key=str)), east, north, [c for c in comps], k, delta)
         run.sample("vanish", {"kind": kind, "config": cfg, "n": n, "datum": k, "outlier": delta, "difference": {str(e): v for e, v in diff.items()},
                               "numerical_tolerance": tol})
+    elif stream == "history":
+        _history(run, rng, verde, index)
     elif stream == "wmag":
         # weight-magnitude classes: the same non-uniform relative weights times 1e-15 ... 1e12, for every estimator configuration
         configs = ["trend", "spline_damped", "spline_undamped_fewer_forces", "vspline_damped", "vspline_undamped_fewer_forces", "spline_damped_fewer_forces"]
